@@ -262,12 +262,43 @@ def evaluate(lib, sd, verd, model, texts, wd, tag, masks=None):
 
 # ---- known findings: structural shapes --------------------------------------------------------------------------------------
 
-def finding_shape(sd, sch, mem):
-    """Structural class of (graph, subset) named by an open known finding, computed from the INPUT only; None otherwise."""
+SHAPE_A = "multi-inherit:supertype-missing"
+SHAPE_B = "multi-inherit:constraint-violated-at-one-occurrence"
+SHAPE_C = "multi-inherit:roots-joined,early-match"
+
+
+def finding_shape(sch, mem, legal):
+    """Structural class of (graph, subset) that an open known finding names, computed from the INPUT only (never from the
+    observed outcome); None for everything else.  All three concern subsets holding an entity with several supertypes,
+    which occurs at several places of the library's AND/OR/ANDOR hierarchy:
+    A  S lacks a supertype, but only supertypes of multiply inheriting members that still have another supertype in S;
+    B  S is closed under supertypes, is illegal, and holds a multiply inheriting member;
+    C  S is legal and holds a multiply inheriting member whose supertypes lead to two or more roots."""
+    S = set(mem)
+    multi = [e for e in S if len(sch.ent(e)["supers"]) > 1]
+    if not multi or len(S) < 2:
+        return None
+    if sch.closure(S) != S:
+        lacking = [e for e in S if any(s.lower() not in S for s in sch.ent(e)["supers"])]
+        if all(len(sch.ent(e)["supers"]) > 1 and any(s.lower() in S for s in sch.ent(e)["supers"]) for e in lacking):
+            return SHAPE_A
+        return None
+    if not legal:
+        return SHAPE_B
+    for m in multi:
+        roots = [a for a in sch.ancestors(m) if not sch.ent(a)["supers"]]
+        if len(roots) > 1:
+            return SHAPE_C
     return None
 
 
-def signature(f, sd=None, sch=None, names=None):
+def signature(f, sch, verd, names):
+    """Root-cause signature of one failure: the failure kind, qualified by the structural shape for the two verdict kinds."""
+    if f["kind"] in ("legal-refused", "illegal-created") and f.get("mask"):
+        sh = finding_shape(sch, members_of(names, f["mask"]), verd[f["mask"]])
+        want = {SHAPE_A: "illegal-created", SHAPE_B: "illegal-created", SHAPE_C: "legal-refused"}
+        if sh and want[sh] == f["kind"]:
+            return sh
     return f["kind"]
 
 
